@@ -442,7 +442,8 @@ static void do_compact(void) {
 // 'I': kind:u32 fill:u32 seed:u32 flags:u32 -> status, sizeof:u32
 //      (re)creates an image decoder object in its own exact-size allocation.
 // 'J': method:u8 (0 decode_image_config, 1 decode_frame_config, 2 decode_frame,
-//      3 restart_frame(index:u64, io_position:u64 follow the common fields))
+//      3 restart_frame(index:u64, io_position:u64 follow the common fields),
+//      4 tell_me_more (into a 64-byte scratch destination))
 //      src_len:u32 bytes src_ri:u32 closed:u8 pos:u64 pixfill:u8
 //   -> status, src_ri:u32, src_ok:u8, mallocs:u32, frees:u32, then
 //      method 0: width:u32 height:u32 pixfmt:u32 first_frame_io_position:u64 work_min:u64 work_max:u64
@@ -539,9 +540,14 @@ static void do_img_call(void) {
   wuffs_base__status st = wuffs_base__make_status(NULL);
   uint32_t mallocs1 = 0, frees1 = 0;
   if (method == 2) {
-    if (!img_have_cfg) die("decode_frame before a successful decode_image_config");
     if (!img_pix) {
       uint64_t w = wuffs_base__pixel_config__width(&img_cfg.pixcfg), h = wuffs_base__pixel_config__height(&img_cfg.pixcfg);
+      if (!img_have_cfg) {
+        // decode_frame without a prior decode_image_config is legal (it is
+        // called implicitly); a caller then brings its own pixel buffer, and a
+        // smaller one only clips (doc/std/image-decoders-call-sequence.md).
+        w = 64; h = 64;
+      }
       if (w * h > (1u << 24)) {
         too_big = 1;
       } else {
@@ -573,6 +579,14 @@ static void do_img_call(void) {
       case 2: st = wuffs_base__image_decoder__decode_frame(img, &img_pb, &s, WUFFS_BASE__PIXEL_BLEND__SRC,
                       wuffs_base__make_slice_u8(img_work, img_work_len), NULL); break;
       case 3: st = wuffs_base__image_decoder__restart_frame(img, r_index, r_iopos); break;
+      case 4: {
+        static uint8_t tmm_mem[64];
+        wuffs_base__io_buffer tdst = wuffs_base__ptr_u8__writer(tmm_mem, sizeof tmm_mem);
+        wuffs_base__more_information minfo;
+        memset(&minfo, 0, sizeof minfo);
+        st = wuffs_base__image_decoder__tell_me_more(img, &tdst, &minfo, &s);
+        break;
+      }
       default: die("unknown image method");
     }
     mallocs1 = n_mallocs - mallocs0; frees1 = n_frees - frees0;
